@@ -307,6 +307,10 @@ type fileCtx struct {
 	// the selector expressions p.f to stamp, and those in write position
 	fieldSel   map[*ast.SelectorExpr]string
 	fieldWrite map[*ast.SelectorExpr]bool
+	// usesChannels: the file contains channel types or operations; constCtx: len/cap calls inside
+	// constant declarations and array lengths (must stay builtins)
+	usesChannels bool
+	constCtx     map[*ast.CallExpr]bool
 }
 
 // analyse finds, per function containing a `go` closure, the closure's free variables declared in
@@ -391,6 +395,34 @@ func (c *fileCtx) analyse() {
 		return true
 	})
 
+	c.constCtx = map[*ast.CallExpr]bool{}
+	markConst := func(n ast.Node) {
+		ast.Inspect(n, func(m ast.Node) bool {
+			if ce, ok := m.(*ast.CallExpr); ok {
+				c.constCtx[ce] = true
+			}
+			return true
+		})
+	}
+	ast.Inspect(c.file, func(n ast.Node) bool {
+		switch x := n.(type) {
+		case *ast.ChanType, *ast.SendStmt, *ast.SelectStmt:
+			c.usesChannels = true
+		case *ast.UnaryExpr:
+			if x.Op == token.ARROW {
+				c.usesChannels = true
+			}
+		case *ast.GenDecl:
+			if x.Tok == token.CONST {
+				markConst(x)
+			}
+		case *ast.ArrayType:
+			if x.Len != nil {
+				markConst(x.Len)
+			}
+		}
+		return true
+	})
 	c.fieldSel, c.fieldWrite = map[*ast.SelectorExpr]string{}, map[*ast.SelectorExpr]bool{}
 	for _, d := range c.file.Decls {
 		fd, ok := d.(*ast.FuncDecl)
@@ -696,6 +728,14 @@ func (c *fileCtx) rewrite() {
 			if id, ok := x.Fun.(*ast.Ident); ok && id.Name == "close" && id.Obj == nil && len(x.Args) == 1 {
 				c.usedShim = true
 				return call("Close", x.Args[0])
+			}
+			// len(ch) / cap(ch): in files that use channels every len/cap goes through the shim (it
+			// cannot be told syntactically which argument is a channel); constant contexts excepted
+			if id, ok := x.Fun.(*ast.Ident); ok && (id.Name == "len" || id.Name == "cap") && id.Obj == nil && len(x.Args) == 1 && c.usesChannels && !c.constCtx[x] {
+				if _, isLit := x.Args[0].(*ast.BasicLit); !isLit {
+					c.usedShim = true
+					return call(map[string]string{"len": "Len", "cap": "Cap"}[id.Name], x.Args[0])
+				}
 			}
 
 		case *ast.RangeStmt:
